@@ -28,6 +28,7 @@ func verifNote(s string)                                         // free-text de
 func verifRow(prefix string, kind int, depth uint, text string) string // abstract Markdown row
 func verifRegister(name string, f func())                        // entry registry (used by the native replay only)
 func verifFSCalls() []string                                     // byte-level FS recorder: paths handed to mutating os calls so far
+func verifCtxDeadline(k uint) context.Context                    // as verifCtx, but the context ends by its deadline: Err() is context.DeadlineExceeded
 func verifCtx(k uint) context.Context                            // context cancelled at synchronisation event k of the run (0: already cancelled; >= 100000: never)
 func verifFSKinds() []string                                     // same order as verifFSCalls: "mkdir" or "create"
 func verifQuiesce() int                                          // lets all goroutines run; returns how many are left
